@@ -467,10 +467,12 @@ class HttpProxyPlugin(HttpProtocolHandlerPlugin):
                     assert self.pipeline_request is not None
                     # TODO(abhinavsingh): Remove memoryview wrapping here after
                     # parser is fully memoryview compliant
+                    # Requests received within an intercepted tunnel are
+                    # forwarded as-is, plain proxy requests like the 1st one.
                     self.upstream.queue(
-                        memoryview(
-                            self.pipeline_request.build(),
-                        ),
+                        memoryview(self.pipeline_request.build())
+                        if self.request.is_https_tunnel else
+                        self._build_upstream_request(self.pipeline_request),
                     )
                     # Bytes following this request within the same read
                     # belong to the next pipelined request.
@@ -540,34 +542,38 @@ class HttpProxyPlugin(HttpProtocolHandlerPlugin):
             # If an upstream server connection was established for http request,
             # queue the request for upstream server.
             else:
-                # - proxy-connection header is a mistake, it doesn't seem to be
-                #   officially documented in any specification, drop it.
-                # - proxy-authorization is of no use for upstream, remove it.
-                self.request.del_headers(
-                    [
-                        httpHeaders.PROXY_AUTHORIZATION,
-                        httpHeaders.PROXY_CONNECTION,
-                    ],
-                )
-                # - For HTTP/1.0, connection header defaults to close
-                # - For HTTP/1.1, connection header defaults to keep-alive
-                # Respect headers sent by client instead of manipulating
-                # Connection or Keep-Alive header.  However, note that per
-                # https://developer.mozilla.org/en-US/docs/Web/HTTP/Headers/Connection
-                # connection headers are meant for communication between client and
-                # first intercepting proxy.
-                self.request.add_headers(
-                    [(b'Via', b'1.1 %s' % PROXY_AGENT_HEADER_VALUE)],
-                )
-                # Disable args.disable_headers before dispatching to upstream
                 self.upstream.queue(
-                    memoryview(
-                        self.request.build(
-                            disable_headers=self.flags.disable_headers,
-                        ),
-                    ),
+                    self._build_upstream_request(self.request),
                 )
         return False
+
+    def _build_upstream_request(self, request: HttpParser) -> memoryview:
+        """Prepares 1st as well as follow-up (pipelined) requests for dispatch to upstream."""
+        # - proxy-connection header is a mistake, it doesn't seem to be
+        #   officially documented in any specification, drop it.
+        # - proxy-authorization is of no use for upstream, remove it.
+        request.del_headers(
+            [
+                httpHeaders.PROXY_AUTHORIZATION,
+                httpHeaders.PROXY_CONNECTION,
+            ],
+        )
+        # - For HTTP/1.0, connection header defaults to close
+        # - For HTTP/1.1, connection header defaults to keep-alive
+        # Respect headers sent by client instead of manipulating
+        # Connection or Keep-Alive header.  However, note that per
+        # https://developer.mozilla.org/en-US/docs/Web/HTTP/Headers/Connection
+        # connection headers are meant for communication between client and
+        # first intercepting proxy.
+        request.add_headers(
+            [(b'Via', b'1.1 %s' % PROXY_AGENT_HEADER_VALUE)],
+        )
+        # Disable args.disable_headers before dispatching to upstream
+        return memoryview(
+            request.build(
+                disable_headers=self.flags.disable_headers,
+            ),
+        )
 
     def handle_pipeline_response(self, raw: memoryview) -> None:
         if self.pipeline_response is None:
